@@ -391,7 +391,10 @@ def encode_table_value(
     elif isinstance(value, _decimal.Decimal):
         return b'D' + decimal(value)
     elif isinstance(value, float):
-        return b'f' + floating_point(value)
+        try:
+            return b'f' + floating_point(value)
+        except OverflowError:  # Does not fit single precision
+            return b'd' + double(value)
     elif isinstance(value, str):
         return b'S' + long_string(value)
     elif isinstance(value, (datetime.datetime, time.struct_time)):
